@@ -231,7 +231,7 @@ func init() {
 		"time.runtimeNano":  extRuntimeNano,
 		"time.Sleep":        noop,
 		"time.NewTimer":     extNewTimer,
-		"time.NewTicker":    extNewTimer,
+		"time.NewTicker":    extNewTicker,
 		"time.After":        func(fr *frame, args []value) value { return (*channel)(nil) },
 		"time.AfterFunc":    extNewTimer,
 		"(*time.Timer).Stop":   func(fr *frame, args []value) value { return true },
@@ -566,6 +566,29 @@ func extMathMax(fr *frame, args []value) value {
 }
 
 // ---- timers: never fire
+
+// time.NewTicker panics on a non-positive interval, as the real one does (the ticker itself never
+// fires in the engine).
+func extNewTicker(fr *frame, args []value) value {
+	i := fr.i
+	switch d := args[0].(type) {
+	case *Term:
+		var nonPos *Term
+		if d.sort.K == kBV {
+			nonPos = i.ts.BVCmp("bvsle", d, i.ts.BV(d.sort.W, 0))
+		} else if d.sort.K == kInt {
+			nonPos = i.ts.ArithCmp("<=", d, i.ts.IntC(0))
+		}
+		if nonPos != nil && i.branch(nonPos) {
+			i.raise("non-positive interval for NewTicker")
+		}
+	default:
+		if asInt64(args[0]) <= 0 {
+			i.raise("non-positive interval for NewTicker")
+		}
+	}
+	return extNewTimer(fr, args)
+}
 
 func extNewTimer(fr *frame, args []value) value {
 	v := zero(mustDeref(fr.fn.Signature.Results().At(0).Type()))
